@@ -219,12 +219,21 @@ def history_runs(ctx):
         finally:
             sys.setrecursionlimit(old)
     def op_reconfig():
+        # every non-empty subset of the reconfiguration methods, in random order, then default_initialization(): whatever was changed — keywords
+        # only, rules only, both, cleared or not — the documented way back must restore the defaults
         lx = lexer.Lexer.get_default_instance()
-        lx.add_keywords({'ZORK': T.Keyword, 'FOO': T.Keyword.DML})
-        lx.set_SQL_REGEX([(r'zork\d+', T.Literal)] + keywords.SQL_REGEX)
-        sqlparse.parse('zork1 foo')
-        if rng.random() < 0.5:
-            lx.clear()
+        steps = [lambda: lx.add_keywords({'ZORK': T.Keyword, 'FOO': T.Keyword.DML, 'A': T.Keyword, 'T': T.Keyword.DDL, 'X': T.Keyword}),
+                 lambda: lx.set_SQL_REGEX([(r'zork\d+', T.Literal), (r'zorder\s+by', T.Keyword), (r'(?i)(select|from|insert|;)', T.Literal)] + keywords.SQL_REGEX),
+                 lambda: lx.clear()]
+        k = rng.randint(1, 7)
+        chosen = [st for i, st in enumerate(steps) if k >> i & 1]
+        rng.shuffle(chosen)
+        for st in chosen:
+            st()
+        try:
+            sqlparse.parse('zork1 foo zorder by')
+        except Exception:
+            pass
         lx.default_initialization()
     def op_bytes_enc():
         # bytes input with an explicit encoding (and one that fails to decode): nothing about it may influence later calls
